@@ -23,6 +23,8 @@ const (
 	cliHome      = "/home/u"
 	cliCacheHome = "/home/u/.cache"
 	cliTmp       = "/tmp"
+	// cliFifo/x is a named pipe that delivers the content of /u/x (gts cmd <(cat x))
+	cliFifo = "/fifo"
 )
 
 type editSpec struct {
@@ -234,6 +236,7 @@ func newCliWorld(env cliEnv, keep bool) *simos.World {
 		e.CacheHome = ""
 	}
 	w := simos.NewWorld(e, keep)
+	w.FifoRoot, w.FifoSrc = cliFifo, "/u"
 	w.MkdirAllRaw(cliHome)
 	if env.Tmp != "missing" {
 		w.MkdirAllRaw(cliTmp)
@@ -331,7 +334,7 @@ func (x *cliExec) reference(rs *runStep, files map[string][]byte, stdin []byte) 
 	for p, d := range files {
 		w.PutFile(p, d)
 	}
-	spec := simos.ProcSpec{SinkLimit: -1}
+	spec := simos.ProcSpec{SinkLimit: -1, FifoChunks: altChunks(rs.Chunks)}
 	if rs.SinkLimit != nil {
 		spec.SinkLimit = *rs.SinkLimit
 	}
@@ -469,7 +472,7 @@ func (x *cliExec) runStep(i int, rs *runStep) {
 		stdin = append([]byte(nil), files[simos.Clean(rs.Stdin)]...)
 	}
 	ref := x.reference(rs, files, stdin)
-	spec := simos.ProcSpec{SinkLimit: -1, Faults: rs.Faults, PowerLoss: rs.PowerLoss}
+	spec := simos.ProcSpec{SinkLimit: -1, Faults: rs.Faults, PowerLoss: rs.PowerLoss, FifoChunks: rs.Chunks}
 	if rs.SinkLimit != nil {
 		spec.SinkLimit = *rs.SinkLimit
 	}
